@@ -349,6 +349,29 @@ def check_between(fu, scn, stats, viol):
         shutil.rmtree(d, ignore_errors=True)
 
 
+def check_reuse_foreign(fu, scn, stats, viol):
+    """A saver object that has completed one save is entered again while a part file that is not its own sits there
+    (overwrite_part off): the second save is refused and the foreign part file is left alone."""
+    d = tempfile.mkdtemp(prefix='verif-c05v-')
+    try:
+        res = F.run_in_process(fu, scn, d)
+        stats.evaluations += 1
+        stats.monitor_evals += 1
+        stats.count('saver_objects_reused_next_to_a_foreign_part_file')
+        a = res['after']
+        wit = {'scn': scn, 'faults': []}
+        if res['exc'] is None:
+            viol('reuse:foreign-part:not-refused', 'the second use of the saver went ahead although a part file that was not its own '
+                 'existed (overwrite_part off); listing %r' % (a['listing'],), wit)
+        elif a['part'] is None or a['part']['bytes'] != F.FOREIGN_PART:
+            viol('reuse:foreign-part:touched', 'the refused second use %s the part file of the other writer (listing %r)'
+                 % ('removed' if a['part'] is None else 'changed', a['listing']), wit)
+        elif a['dest'] is None or a['dest']['bytes'] != F.expected_bytes(scn):
+            viol('reuse:foreign-part:destination', 'destination after the refused second use: %r' % (brief(a['dest']),), wit)
+    finally:
+        shutil.rmtree(d, ignore_errors=True)
+
+
 def check_reuse(fu, scn, stats, viol):
     """One AtomicSaver object entered twice (a retry loop around `with saver:`): the second save is judged like any
     other save in the directory state it found."""
@@ -487,6 +510,8 @@ def run(ctx):
                 if how == 'after-failure' and not scn['rm_part_on_exc'] and not scn['overwrite_part']:
                     continue        # the part file kept on purpose blocks the next attempt
                 check_reuse(fu, dict(scn, reuse=how), st, viol)
+            if scn['overwrite'] and not scn['overwrite_part']:
+                check_reuse_foreign(fu, dict(scn, reuse='after-success-foreign-part'), st, viol)
             for how in ('chmod-dest', 'create-dest', 'delete-dest'):
                 if (how == 'create-dest') == (scn['dest'] == 'absent'):
                     check_between(fu, dict(scn, between=how, between_mode=[0o600, 0o640, 0o755, 0o604][i % 4]), st, viol)
